@@ -61,8 +61,15 @@ def fieldRecords : List (String × Nat × Nat) :=   -- event, men's record, wome
   [("HJ", 245, 209), ("LJ", 895, 752), ("TJ", 1829, 1550), ("PV", 616, 506), ("HT", 8674, 8298),
    ("DT", 7408, 7680), ("WT", 2457, 2250), ("SP", 2312, 2263), ("JT", 10480, 7228)]
 
-def recordOf (disc gender : Str) : Option Nat :=
+/-- the record row of an event code: the code itself, else its leading capitals (the generic event of a weight-specific
+    code: `SP7.26K` → `SP`) -/
+def recordRow (disc : Str) : Option (String × Nat × Nat) :=
   match fieldRecords.find? (fun r => upper disc == r.1.toList) with
+  | some r => some r
+  | none => fieldRecords.find? (fun r => (upper disc).takeWhile (fun c => 'A' ≤ c && c ≤ 'Z') == r.1.toList)
+
+def recordOf (disc gender : Str) : Option Nat :=
+  match recordRow disc with
   | none => none
   | some r =>
     let g := lower gender
